@@ -458,11 +458,13 @@ def has_ifexp(program):
 
 
 def forms_of(program, skip_gen_ifexp=True):
-    """Every front-end form the program can be written in.  Conditional expressions are not emitted in generator
-    form: on this interpreter the decompiler (property C03, shape K1) returns a different tree for them."""
+    """Every front-end form the program can be written in.  Conditional expressions are emitted in string form only:
+    on this interpreter the decompiler (property C03, shape K1) silently returns a different tree for them in
+    generator form, and also in lambda form when they sit next to and/or or inside a nested generator."""
     out = [program.clone(form='str')]
-    if not (skip_gen_ifexp and has_ifexp(program)): out.insert(0, program.clone(form='gen'))
-    if program.lam is not None: out.append(program.clone(form='lam'))
+    decompilable = not (skip_gen_ifexp and has_ifexp(program))
+    if decompilable: out.insert(0, program.clone(form='gen'))
+    if program.lam is not None and decompilable: out.append(program.clone(form='lam'))
     return out
 
 
@@ -615,6 +617,13 @@ DEVIATIONS = OrderedDict([
 ])
 
 
+# shape predicates: mechanisms whose deviant answer cannot be predicted (backend picks an arbitrary row)
+SHAPE_RULES = OrderedDict([
+    ('outer_aggr_arg', 'C01-SUBQUERY-AGGREGATE-OF-OUTER-EXPRESSION'),
+    ('alias_clash', 'C01-SUBQUERY-ALIAS-SHADOWS-OUTER-JOIN'),
+])
+
+
 def _is_num(v): return isinstance(v, NUM) and not isinstance(v, bool) or isinstance(v, bool)
 
 
@@ -639,6 +648,7 @@ class Interp(object):
         self.leftjoin_targets = set()   # loop variables bound by a LEFT JOIN (empty collection -> one None binding)
         self.null_item_ok = False
         self.unpredictable = False      # deviant semantics depend on an arbitrary row choice of the backend
+        self.dectext_projected = False
 
     # -- helpers -------------------------------------------------------------------------------------------------
     def pyraise(self, why=''):
@@ -806,6 +816,13 @@ class Interp(object):
                 a = self._opt_attr(n.value)
                 if a is not None and not (n.attr == 'id' and not a.reverse.is_ref):
                     out.append(n.value)
+        def nested(n, inside):
+            if isinstance(n, (ast.GeneratorExp, ast.Lambda)) and n is not scope: inside = True
+            if inside and isinstance(n, ast.Attribute) and self._root_name(n) in level_vars:
+                a = self._opt_attr(n)
+                if a is not None and a.reverse.is_ref and a.reverse.kind == 'req': out.append(n)
+            for c in ast.iter_child_nodes(n): nested(c, inside)
+        nested(scope, False)
         self._optref_cache[key] = out
         return out
 
@@ -972,7 +989,7 @@ class Interp(object):
 
     def binop(self, op, a, b, node=None):
         if a is U or b is U: raise Unsupported('arithmetic on UNKNOWN')
-        if isinstance(a, (list, set)) or isinstance(b, (list, set)): raise Unsupported('arithmetic on collections')
+        if isinstance(a, (list, set, GroupConcat)) or isinstance(b, (list, set, GroupConcat)): raise Unsupported('arithmetic on collections')
         if a is None or b is None: return self.nullprop()
         opn = type(op).__name__
         if isinstance(a, str) or isinstance(b, str):
@@ -983,13 +1000,14 @@ class Interp(object):
         if not (isinstance(a, NUM) and isinstance(b, NUM)): raise Unsupported('binop operands')
         if isinstance(a, Decimal) and isinstance(b, float) or isinstance(a, float) and isinstance(b, Decimal):
             raise NoReference('Decimal with float')
+        ext = node is not None and self.is_external(node)
         try:
             if opn == 'Add': return a + b
             if opn == 'Sub': return a - b
             if opn == 'Mult': return a * b
             if opn == 'Div':
                 if b == 0: return self.pyraise('division by zero')
-                if isinstance(a, int) and isinstance(b, int):
+                if isinstance(a, int) and isinstance(b, int) and not ext:
                     self.sites.add('int_truediv')
                     if 'int_truediv' in self.dev: return c_div(int(a), int(b))
                 return a / b
@@ -997,6 +1015,7 @@ class Interp(object):
                 if b == 0: return self.pyraise('division by zero')
                 if isinstance(a, Decimal) or isinstance(b, Decimal): raise Unsupported('decimal floordiv/mod')
                 py = a // b if opn == 'FloorDiv' else a % b
+                if ext: return py
                 isint = isinstance(a, int) and isinstance(b, int)
                 if opn == 'FloorDiv': lite = c_div(int(a), int(b)) if isint else a / b
                 else:
@@ -1020,14 +1039,23 @@ class Interp(object):
 
     def date_binop(self, opn, a, b, node):
         try:
-            if isinstance(a, date) and isinstance(b, timedelta):
-                if node is not None and isinstance(node.right, ast.Name) and node.right.id in self.params:
+            if isinstance(a, (date, _DateTimeText)) and isinstance(b, timedelta) and opn in ('Add', 'Sub'):
+                rnode = node.right if node is not None else None
+                is_param = rnode is not None and self.is_external(rnode) and not (
+                    isinstance(rnode, ast.Call) and isinstance(rnode.func, ast.Name) and rnode.func.id == 'timedelta')
+                ext = node is not None and self.is_external(node)
+                base = a.d if isinstance(a, _DateTimeText) else a
+                r = (base + b) if opn == 'Add' else (base - b)
+                if ext: return r
+                if is_param:
+                    # date +/- PARAMETER timedelta -> datetime(julianday(x) + ?) -> 'YYYY-MM-DD HH:MM:SS' text
                     self.sites.add('date_param_delta')
-                    if 'date_param_delta' in self.dev:
-                        r = (a + b) if opn == 'Add' else (a - b)
-                        return _DateTimeText(r)
-                if opn == 'Add': return a + b
-                if opn == 'Sub': return a - b
+                    if 'date_param_delta' in self.dev: return _DateTimeText(r)
+                    return r
+                if isinstance(a, _DateTimeText):
+                    secs = b.days * 86400 + b.seconds
+                    return a if secs == 0 else r          # date(x, '+N days') normalises; a zero delta is a no-op
+                return r
             if isinstance(a, date) and isinstance(b, date) and opn == 'Sub': return a - b
         except OverflowError: return self.pyraise('date overflow')
         raise NoReference('date arithmetic %s' % opn)
@@ -1098,10 +1126,15 @@ class Interp(object):
             if opn == 'Eq': return False
             if opn == 'NotEq': return True
             raise NoReference('ordering of %s and %s' % (type(a).__name__, type(b).__name__))
-        if num and a != b:
+        if num and (a != b or isinstance(a, Decimal) or isinstance(b, Decimal)):
             try:
                 fa, fb = float(a), float(b)
-                if abs(fa - fb) <= 1e-9 * max(abs(fa), abs(fb)): self.row_flag = True     # float boundary: free row
+                near = abs(fa - fb) <= 1e-9 * max(abs(fa), abs(fb), 1e-300)
+                if near and a != b: self.row_flag = True                      # float boundary: free row
+                if near and a == b and (isinstance(a, Decimal) or isinstance(b, Decimal)) and opn in ('Eq', 'NotEq', 'Lt', 'LtE', 'Gt', 'GtE'):
+                    computed = lambda n: n is not None and not self.is_column(n) and not isinstance(n, (ast.Constant, ast.Name)) \
+                        and not (isinstance(n, ast.Call) and isinstance(n.func, ast.Name) and n.func.id == 'Decimal')
+                    if computed(lnode) or computed(rnode): self.row_flag = True   # Decimal arithmetic is done in floats by sqlite
             except OverflowError: pass
         try:
             if opn == 'Eq': return a == b
@@ -1153,8 +1186,8 @@ class Interp(object):
                 if isinstance(n, ast.Name) and n.id in self.params: return True, self.params[n.id]
                 return False, None
             ok1, v1 = static_int(sl.lower); ok2, v2 = static_int(sl.upper)
-            if ok1 and ok2 and v1 in (None, 0) and v2 == -1 and isinstance(node.value, ast.AST) \
-                    and not isinstance(node.value, ast.Constant):
+            if ok1 and v1 in (None, 0) and ((ok2 and v2 == -1) or (not ok2 and sl.upper is not None)) \
+                    and not self.is_external(node):
                 self.sites.add('slice_stop_m1')
                 if 'slice_stop_m1' in self.dev: return s
             return s[lo:hi]
@@ -1213,7 +1246,7 @@ class Interp(object):
             yield env; return
         g = generators[i]
         it = self.ev(g.iter, env)
-        if it is None: it = []
+        if it is None: it = set()
         if outer and isinstance(g.target, ast.Name) and isinstance(it, (set, frozenset)) and not it and (
                 g.target.id in self.leftjoin_targets or
                 (self.o2o_active and 'o2o_left_join' in self.dev and isinstance(g.iter, ast.Attribute))):
@@ -1284,6 +1317,11 @@ class Interp(object):
             return float(sum(float(v) for v in vals) / len(vals))
         if name in ('min', 'max'):
             if any(isinstance(v, MObj) for v in vals): raise NoReference('min/max of entities')
+            if any(isinstance(v, DecText) for v in vals) and len(vals) > 1:
+                self.sites.add('dec_param_text')         # sqlite orders every number before every text
+                if 'dec_param_text' in self.dev:
+                    key = lambda v: (1, str(v)) if isinstance(v, DecText) else (0, v)
+                    return min(vals, key=key) if name == 'min' else max(vals, key=key)
             try: return min(vals) if name == 'min' else max(vals)
             except TypeError: raise NoReference('min/max mixed types')
         if name == 'group_concat':
@@ -1306,6 +1344,13 @@ class Interp(object):
                 try: return min(vals) if name == 'min' else max(vals)
                 except TypeError: raise NoReference('min/max mixed')
             kw = self.kwargs(node, env)
+            g = args[0]
+            if isinstance(g, ast.Call) and isinstance(g.func, ast.Name) and g.func.id in ('select', 'distinct') and g.args: g = g.args[0]
+            if isinstance(g, ast.GeneratorExp):
+                own = {x.id for c in g.generators for x in ast.walk(c.target) if isinstance(x, ast.Name)}
+                names = {x.id for x in ast.walk(g.elt) if isinstance(x, ast.Name)}
+                if not (names & own) and any(x in env and x not in self.params for x in names):
+                    self.sites.add('outer_aggr_arg')
             saved, self.strict = self.strict, False
             try: coll = self.ev(args[0], env)
             finally: self.strict = saved
@@ -1343,6 +1388,7 @@ class Interp(object):
             raise Unsupported('len of %s' % type(v).__name__)
         vals = [self.ev(a, env) for a in args]
         if any(v is U for v in vals): raise Unsupported('UNKNOWN as function argument')
+        if any(isinstance(v, GroupConcat) for v in vals): raise Unsupported('group_concat value used as an operand')
         if name == 'abs':
             if vals[0] is None: return self.nullprop()
             if not isinstance(vals[0], NUM): raise Unsupported('abs arg')
@@ -1423,6 +1469,8 @@ class Interp(object):
             if name == 'count': return len({canon(x) for x in base if x is not None})
             raise Unsupported('collection method ' + name)
         args = [self.ev(a, env) for a in node.args]
+        if isinstance(base, GroupConcat) or any(isinstance(a, GroupConcat) for a in args):
+            raise Unsupported('group_concat value used as an operand')
         if name in ('startswith', 'endswith'):
             if base is None or args[0] is None: return self.amb()
             if base is U or not isinstance(base, str) or not isinstance(args[0], str): raise Unsupported('startswith args')
@@ -1434,7 +1482,7 @@ class Interp(object):
             if args: return getattr(base, name)(args[0])
             py = getattr(base, name)()
             lite = getattr(base, name)(' ')
-            if py != lite:
+            if py != lite and not self.is_external(node):
                 self.sites.add('strip_spaces_only')
                 if 'strip_spaces_only' in self.dev: return lite
             return py
@@ -1609,7 +1657,7 @@ def eval_rows(it, tree):
             it.mode, it.row_flag, it.amb_seen, it.strict = mode, False, False, False
             inc = it.t_and([it.cond(c, env) for c in conds]) is True
             val = None
-            if inc and it.optref_drop(tree, level_vars, env, extra): inc = False
+            if it.optref_drop(tree, level_vars, env, extra): inc = False
             if inc:
                 it.strict = True
                 try: val = it.ev(tree.elt, env)
@@ -1622,6 +1670,8 @@ def eval_rows(it, tree):
                 if isinstance(val, (set, frozenset, list)) or (isinstance(val, tuple) and any(
                         isinstance(v, (set, frozenset, list)) for v in val)):
                     raise Unsupported('collection-valued projection (pony flattens it)')
+                if isinstance(val, DecText) or (isinstance(val, tuple) and any(isinstance(v, DecText) for v in val)):
+                    it.dectext_projected = True
                 val = canon(val)
             r.flag = r.flag or it.row_flag
             res[mode] = (inc, val)
@@ -1636,12 +1686,28 @@ def eval_rows(it, tree):
 def eval_aggregated(it, tree):
     """Aggregated query (query-level aggregates in the projection and/or conditions) -> (result list, uncertain?)."""
     elts = tree.elt.elts if isinstance(tree.elt, ast.Tuple) else [tree.elt]
-    key_idx = [i for i, e in enumerate(elts) if not it.has_qaggr(e)]
+    def has_subquery(n):
+        for x in ast.walk(n):
+            if isinstance(x, (ast.GeneratorExp, ast.Lambda)): return True
+            if isinstance(x, ast.Call) and isinstance(x.func, ast.Name) and x.func.id in AGGS + ('len', 'exists') and not it.is_qaggr(x) \
+                    and not (x.func.id in ('min', 'max') and len(x.args) > 1) and not (x.func.id == 'len' and not it.is_coll(x.args[0])): return True
+            if isinstance(x, ast.Attribute):
+                t = it.stype(x.value)
+                if isinstance(t, tuple) and t[0] == 'ent':
+                    h = it.schema.ents[t[1]].all_hybrids.get(x.attr)
+                    if h is not None and any(isinstance(y, ast.Call) and isinstance(y.func, ast.Name) and y.func.id in AGGS
+                                             for y in ast.walk(h.tree)): return True
+                if isinstance(t, tuple) and t[0] in ('set', 'bag'): return True
+        return False
+    rewritten = getattr(it, 'rewritten', False)
+    key_idx = [i for i, e in enumerate(elts) if not it.has_qaggr(e) and not (rewritten and has_subquery(e))]
     where, having = [], []
     for g in tree.generators:
         for c in g.ifs:
             for part in split_and(c): (having if it.has_qaggr(part) else where).append(part)
     if having and not key_idx: raise Unsupported('HAVING without grouping columns')
+    if not rewritten and any(has_subquery(e) for e in elts):
+        raise Unsupported('aggregated query mixing query-level aggregates with subqueries/collections')
     envs = list(it.bindings(tree.generators, 0, {}, outer=True))
     level_vars = {n.id for g in tree.generators for n in ast.walk(g.target) if isinstance(n, ast.Name)}
     uncertain = [False]
@@ -1704,7 +1770,11 @@ def ev_group(it, node, genvs):
                     return ast.copy_location(ast.Name(nm, ast.Load()), n)
                 return self.generic_visit(n)
         node = ast.fix_missing_locations(R().visit(copy.deepcopy(node)))
-    if not genvs: return it.ev(node, dict(aggs))
+    if not genvs:
+        saved = it.null_item_ok
+        it.null_item_ok = True
+        try: return it.ev(node, dict({k: None for k in it.tenv}, **aggs))
+        finally: it.null_item_ok = saved
     v0 = it.ev(node, dict(genvs[0], **aggs))
     if len(genvs) > 1 and not isinstance(node, (ast.Constant, ast.Name)):
         c0 = canon(None if v0 is U else v0)
@@ -1716,32 +1786,55 @@ def ev_group(it, node, genvs):
 
 
 def aggr_opt_rewrite(it, tree):
-    """Model of pony's aggregated-subquery optimisation (Query.__init__ -> translator.can_be_optimized): a query over
-    ONE entity that aggregates exactly one collection path (count(p.items), sum(p.items.price), p.items.count(), ...)
-    and joins no other table is re-translated as  FROM p LEFT JOIN items GROUP BY <non-aggregated projection items>.
-    Returns the equivalent query tree  `... for p in E for _j in p.items`  with query-level aggregates over _j, or None."""
-    if len(tree.generators) != 1: return None
-    g = tree.generators[0]
-    if not (isinstance(g.target, ast.Name) and isinstance(g.iter, ast.Name) and g.iter.id in it.schema.ents): return None
-    var, ename = g.target.id, g.iter.id
-    ent = it.schema.ents[ename]
+    """Model of pony's aggregated-subquery optimisation (Query.__init__ -> translator.can_be_optimized): a query that
+    aggregates exactly one collection path (count(p.items), sum(p.items.price), p.items.count(), hybrid n_items ...)
+    and whose every joined table alias is a STRING PREFIX of that path ('p-items'.startswith('p')) is re-translated as
+    FROM p LEFT JOIN items ... GROUP BY <non-aggregated projection items>, every join becoming a LEFT JOIN.
+    Returns (equivalent tree with an extra `for _j in p.items` and query-level aggregates over _j, left-joined targets)
+    or None when the optimisation does not apply / is not modelled."""
+    # cheap pre-scan: is there any collection aggregate at all?
+    hyb = getattr(it.schema, '_aggr_hybrids', None)
+    if hyb is None:
+        hyb = it.schema._aggr_hybrids = {h.name for e in it.schema.ents.values() for h in e.all_hybrids.values()
+                                         if any(isinstance(y, ast.Call) and isinstance(y.func, ast.Name) and y.func.id in AGGS + ('len',)
+                                                for y in ast.walk(h.tree))}
+    for n in ast.walk(tree):
+        if isinstance(n, ast.Call) and isinstance(n.func, ast.Name) and n.func.id in AGGS + ('len',) and n.args \
+                and isinstance(n.args[0], ast.Attribute): break
+        if isinstance(n, ast.Attribute) and (n.attr == 'count' or n.attr in hyb): break
+    else: return None
+    tree_in = tree
+    tree = flatten_source(it, tree)
+    flattened = tree is not tree_in
+    gens = tree.generators
+    g0 = gens[0]
+    if not (isinstance(g0.target, ast.Name) and isinstance(g0.iter, ast.Name) and g0.iter.id in it.schema.ents): return None
+    loopvars = OrderedDict([(g0.target.id, g0.iter.id)])
+    left_targets = set()
+    for g in gens[1:]:
+        if not (isinstance(g.target, ast.Name) and isinstance(g.iter, ast.Attribute) and isinstance(g.iter.value, ast.Name)
+                and g.iter.value.id in loopvars): return None
+        a = it.schema.ents[loopvars[g.iter.value.id]].attrs.get(g.iter.attr)
+        if a is None or not a.is_set: return None
+        loopvars[g.target.id] = a.typ
+        left_targets.add(g.target.id)
     paths, blocked = set(), [False]
 
     def expand_hybrids(node):
-        """Inline hybrid properties/methods of `var` so that their bodies are analysed like query text."""
+        """Inline hybrid properties/methods of the loop variables so that their bodies are analysed like query text."""
         class Tr(ast.NodeTransformer):
             def visit_Attribute(self, n):
                 n = self.generic_visit(n)
-                if isinstance(n.value, ast.Name) and n.value.id == var:
-                    h = ent.all_hybrids.get(n.attr)
+                if isinstance(n.value, ast.Name) and n.value.id in loopvars:
+                    h = it.schema.ents[loopvars[n.value.id]].all_hybrids.get(n.attr)
                     if h is not None and h.kind == 'property':
-                        return _subst(copy.deepcopy(h.tree), {'self': ast.Name(var, ast.Load())})
+                        return _subst(copy.deepcopy(h.tree), {'self': ast.Name(n.value.id, ast.Load())})
                 return n
             def visit_Call(self, n):
-                if isinstance(n.func, ast.Attribute) and isinstance(n.func.value, ast.Name) and n.func.value.id == var:
-                    h = ent.all_hybrids.get(n.func.attr)
+                if isinstance(n.func, ast.Attribute) and isinstance(n.func.value, ast.Name) and n.func.value.id in loopvars:
+                    h = it.schema.ents[loopvars[n.func.value.id]].all_hybrids.get(n.func.attr)
                     if h is not None and h.kind == 'method':
-                        m = {'self': ast.Name(var, ast.Load())}
+                        m = {'self': ast.Name(n.func.value.id, ast.Load())}
                         for (a, d), v in zip(h.args, n.args): m[a] = self.visit(v)
                         for (a, d) in h.args:
                             if a not in m: m[a] = ast.parse(d, mode='eval').body
@@ -1752,15 +1845,15 @@ def aggr_opt_rewrite(it, tree):
     tree2 = expand_hybrids(tree)
 
     def set_path(node):
-        """node is var.S or var.S.attr -> (S, attr|None)"""
-        if isinstance(node, ast.Attribute) and isinstance(node.value, ast.Name) and node.value.id == var:
-            a = ent.attrs.get(node.attr)
-            if a is not None and a.is_set: return a.name, None
+        """node is v.S or v.S.attr -> (v, S, attr|None)"""
+        if isinstance(node, ast.Attribute) and isinstance(node.value, ast.Name) and node.value.id in loopvars:
+            a = it.schema.ents[loopvars[node.value.id]].attrs.get(node.attr)
+            if a is not None and a.is_set: return node.value.id, a.name, None
         if isinstance(node, ast.Attribute) and isinstance(node.value, ast.Attribute):
             p = set_path(node.value)
-            if p is not None and p[1] is None:
-                b = it.schema.ents[ent.attrs[p[0]].typ].attrs.get(node.attr)
-                if b is not None and b.is_scalar: return p[0], node.attr
+            if p is not None and p[2] is None:
+                b = it.schema.ents[it.schema.ents[loopvars[p[0]]].attrs[p[1]].typ].attrs.get(node.attr)
+                if b is not None and b.is_scalar: return p[0], p[1], node.attr
         return None
 
     class Rw(ast.NodeTransformer):
@@ -1774,41 +1867,67 @@ def aggr_opt_rewrite(it, tree):
             self.depth += 1
             try: return self.generic_visit(n)
             finally: self.depth -= 1
+        def visit_comprehension(self, n):
+            if n in tree2.generators:              # the loop sources themselves are not aggregate sites
+                n.ifs = [self.visit(c) for c in n.ifs]
+                return n
+            return self.generic_visit(n)
         def visit_Call(self, n):
             f = n.func
             if self.depth == 0 and isinstance(f, ast.Name) and f.id in AGGS + ('len',) and n.args:
                 p = set_path(n.args[0])
-                if p is not None and (p[1] is not None or f.id in ('count', 'len')):
-                    paths.add(p[0])
+                if p is not None and (p[2] is not None or f.id in ('count', 'len')):
+                    paths.add(p[:2])
                     j = ast.Name('_j', ast.Load())
-                    arg = j if p[1] is None else ast.Attribute(j, p[1], ast.Load())
+                    arg = j if p[2] is None else ast.Attribute(j, p[2], ast.Load())
                     return ast.Call(ast.Name('count' if f.id == 'len' else f.id, ast.Load()), [arg] + n.args[1:], n.keywords)
             if self.depth == 0 and isinstance(f, ast.Attribute) and f.attr == 'count' and not n.args:
                 p = set_path(f.value)
-                if p is not None and p[1] is None:
-                    paths.add(p[0])
+                if p is not None and p[2] is None:
+                    paths.add(p[:2])
                     return ast.Call(ast.Name('count', ast.Load()), [ast.Name('_j', ast.Load())], [])
             return self.generic_visit(n)
         def visit_Attribute(self, n):
-            # any other join from `var` blocks the optimisation: var.ref.attr (attr needs the joined table)
-            a = it._opt_attr(n) if False else None
-            if isinstance(n.value, ast.Attribute) and it._root_name(n) == var:
+            # any other join from a loop variable blocks the optimisation: v.ref.attr (attr needs the joined table)
+            root = it._root_name(n)
+            if isinstance(n.value, ast.Attribute) and root in loopvars:
                 bt = it.stype(n.value)
                 if isinstance(bt, tuple) and bt[0] == 'ent' and not set_path(n.value):
-                    ra = it.schema.ents[it.stype(n.value.value)[1]].attrs.get(n.value.attr) \
-                        if isinstance(it.stype(n.value.value), tuple) else None
+                    pt = it.stype(n.value.value)
+                    ra = it.schema.ents[pt[1]].attrs.get(n.value.attr) if isinstance(pt, tuple) else None
                     if not (n.attr == 'id' and ra is not None and not (ra.reverse.is_ref and ra.kind == 'opt' and ra.reverse.kind == 'req')):
                         blocked[0] = True
-            if isinstance(n.value, ast.Name) and n.value.id == var:
-                a = ent.attrs.get(n.attr)
+            if isinstance(n.value, ast.Name) and n.value.id in loopvars:
+                a = it.schema.ents[loopvars[n.value.id]].attrs.get(n.attr)
                 if a is not None and a.is_ref and a.kind == 'opt' and a.reverse.is_ref and a.reverse.kind == 'req':
                     blocked[0] = True            # reverse one-to-one read joins the other table
             return self.generic_visit(n)
     new = Rw().visit(tree2)
     if blocked[0] or len(paths) != 1: return None
-    S = next(iter(paths))
+    v, S = next(iter(paths))
+    path_str = '%s-%s' % (v, S)
+    if not all(path_str.startswith(name) for name in loopvars): return None      # sic: string prefix of the alias
     new.generators.append(ast.comprehension(ast.Name('_j', ast.Store()),
-                                            ast.Attribute(ast.Name(var, ast.Load()), S, ast.Load()), [], 0))
+                                            ast.Attribute(ast.Name(v, ast.Load()), S, ast.Load()), [], 0))
+    if flattened and len(gens) > 1: return None
+    return ast.fix_missing_locations(new), (left_targets | {'_j'}) if not flattened else set()
+
+
+def flatten_source(it, tree):
+    """`... for x in select(v for v in E if c) if d`  ->  `... for x in E if c[v:=x] if d`  (pony merges the two)."""
+    g0 = tree.generators[0]
+    inner = g0.iter
+    if isinstance(inner, ast.Call) and isinstance(inner.func, ast.Name) and inner.func.id == 'select' and inner.args:
+        inner = inner.args[0]
+    if not (isinstance(inner, ast.GeneratorExp) and isinstance(g0.target, ast.Name) and len(inner.generators) == 1): return tree
+    ig = inner.generators[0]
+    if not (isinstance(ig.target, ast.Name) and isinstance(inner.elt, ast.Name) and inner.elt.id == ig.target.id
+            and isinstance(ig.iter, ast.Name) and ig.iter.id in it.schema.ents): return tree
+    new = copy.deepcopy(tree)
+    ng0 = new.generators[0]
+    m = {ig.target.id: ast.Name(g0.target.id, ast.Load())}
+    ng0.ifs = [_subst(copy.deepcopy(c), m) for c in ig.ifs] + ng0.ifs
+    ng0.iter = ast.Name(ig.iter.id, ast.Load())
     return ast.fix_missing_locations(new)
 
 
@@ -1819,10 +1938,76 @@ def _subst(node, mapping):
     return Sb().visit(node)
 
 
+def scan_shapes(it, tree):
+    """Static shape predicates (mechanisms whose deviant answer depends on backend row choice / alias allocation):
+    outer_aggr_arg  an aggregate over a nested generator whose element mentions no variable of that generator but an
+                    outer one: SQL attributes such an aggregate to the OUTER query, which collapses to one row;
+    alias_clash     inside a nested scope, a join-requiring reference chain of an OUTER variable and a table of the
+                    nested scope both get the alias derived from the same entity name: the inner one shadows."""
+    sites = set()
+    def joins(node, own, tenv):
+        """(entity names joined by chains rooted at own variables, ... rooted at outer variables) directly in `node`'s
+        scope and below."""
+        inner, outer = set(), set()
+        for n in ast.walk(node):
+            if isinstance(n, ast.Attribute) and isinstance(n.value, ast.Attribute):
+                saved = it.tenv; it.tenv = tenv
+                try: bt = it.stype(n.value); pt = it.stype(n.value.value)
+                finally: it.tenv = saved
+                if isinstance(bt, tuple) and bt[0] == 'ent' and isinstance(pt, tuple) and pt[0] == 'ent' and n.attr != 'id':
+                    root = it._root_name(n)
+                    (inner if root in own else outer).add(bt[1])
+        return inner, outer
+    def visit(node, tenv, depth):
+        for child in ast.iter_child_nodes(node):
+            if isinstance(child, ast.GeneratorExp):
+                t2 = dict(tenv)
+                saved = it.tenv; it.tenv = t2
+                try: it.bind_static(child.generators)
+                finally: it.tenv = saved
+                own = {x.id for g in child.generators for x in ast.walk(g.target) if isinstance(x, ast.Name)}
+                if depth >= 0:
+                    inner, outer = joins(child, own, t2)
+                    for g in child.generators:
+                        if isinstance(g.iter, ast.Attribute) and False: pass
+                    if inner & outer: sites.add('alias_clash')
+                visit(child, t2, depth + 1)
+            elif isinstance(child, ast.Lambda):
+                t2 = dict(tenv)
+                own = {a.arg for a in child.args.args}
+                coll_ent = None
+                if isinstance(node, ast.Call) and isinstance(node.func, ast.Attribute):
+                    saved = it.tenv; it.tenv = tenv
+                    try: ct = it.stype(node.func.value)
+                    finally: it.tenv = saved
+                    if isinstance(ct, tuple) and ct[0] == 'set':
+                        coll_ent = ct[1]
+                        for v in own: t2[v] = ('ent', ct[1])
+                inner, outer = joins(child, own, t2)
+                if coll_ent: inner.add(coll_ent)
+                if inner & outer: sites.add('alias_clash')
+                visit(child, t2, depth + 1)
+            else:
+                if isinstance(child, ast.Call) and isinstance(child.func, ast.Name) and child.func.id in AGGS and child.args:
+                    g = child.args[0]
+                    if isinstance(g, ast.Call) and isinstance(g.func, ast.Name) and g.func.id in ('select', 'distinct') and g.args: g = g.args[0]
+                    if isinstance(g, ast.GeneratorExp):
+                        own = {x.id for c in g.generators for x in ast.walk(c.target) if isinstance(x, ast.Name)}
+                        names = {x.id for x in ast.walk(g.elt) if isinstance(x, ast.Name)}
+                        if not (names & own) and (names & set(tenv)): sites.add('outer_aggr_arg')
+                visit(child, tenv, depth)
+    t0 = {}
+    saved = it.tenv; it.tenv = t0
+    try: it.bind_static(tree.generators)
+    finally: it.tenv = saved
+    visit(tree, t0, 0)
+    return sites
+
+
 def reference(program, mirror, dev=()):
     """Reference result of the program's base query plus the simple C01 chain (distinct / without_distinct /
     order_by).  Longer chains are judged by apply_chain_ref (C24).  Raises Unsupported / NoReference."""
-    tree = parse_src(program.src)
+    tree = tree0 = parse_src(program.src)
     it = Interp(mirror, program.params, dev)
     rr = RefResult()
     try:
@@ -1836,12 +2021,15 @@ def reference(program, mirror, dev=()):
             if rew is not None:
                 it.sites.add('aggr_optimize')
                 if 'aggr_optimize' in it.dev:
-                    tree, aggregated = rew, True
-                    it.leftjoin_targets, it.null_item_ok = {'_j'}, True
+                    tree, aggregated = rew[0], True
+                    it.leftjoin_targets = rew[1]
+                    it.null_item_ok, it.rewritten = True, True
                     it.tenv = {}
                     it.bind_static(tree.generators)
         if aggregated:
             it.o2o_active = it.find_o2o_reads(tree)
+            if it.o2o_active and any(it.is_coll(g.iter) and isinstance(g.iter, ast.Attribute) for g in tree.generators):
+                it.sites.add('o2o_left_join')
             a, b, unc = eval_aggregated(it, tree)
             rr.aggregated = True
             rr.must = rr.may = Counter(a)
@@ -1868,7 +2056,7 @@ def reference(program, mirror, dev=()):
             rr._rows, rr._tree, rr._it, rr._is_entity = rows, tree, it, is_entity
     except RecursionError:
         raise Unsupported('recursion')
-    rr.sites = set(it.sites)
+    rr.sites = set(it.sites) | scan_shapes(it, tree0)
     rr.unpredictable = it.unpredictable
     for step in program.chain:
         op = step[0]
@@ -1879,6 +2067,10 @@ def reference(program, mirror, dev=()):
         elif op in ('order_by', 'sort_by'):
             rr.no_dups = False
             if not rr.aggregated: rr.order_check = make_order_check(rr, step, program)
+            if it.dectext_projected:
+                # a TEXT-bound Decimal in the ordered projection sorts after every number in sqlite
+                rr.sites.add('dec_param_text')
+                if 'dec_param_text' in it.dev: rr.order_check = None
         else: raise Unsupported('chain step %s in reference()' % op)
     return rr
 
@@ -2010,20 +2202,35 @@ def judge(env, program, dev_rules=None, result=None):
         v.aggregated = rr.aggregated
         return v
     if status == 'no_reference': return Verdict('no_reference', program, result, rr, detail)
-    # deviation-rule pass: KNOWN only if some combination of the encountered deviation sites reproduces pony exactly
-    sites = [s for s in dev_rules if s in rr.sites]
-    combos = [(s,) for s in sites]
-    if len(sites) > 1:
-        combos.append(tuple(sites))
-        if 2 < len(sites) <= 4: combos.extend(itertools.combinations(sites, 2))
-    for combo in combos:
-        try:
-            rr2 = reference(program, env.mirror, dev=combo)
-        except (Unsupported, NoReference): continue
-        st2, _ = compare(result, rr2)
-        if st2 in ('agree', 'lenient_agree') or (rr2.unpredictable and 'aggr_optimize' in combo):
-            v = Verdict('known', program, result, rr, detail, findings=[dev_rules[s] for s in combo])
-            v.by_shape = st2 not in ('agree', 'lenient_agree')
+    # deviation-rule pass: KNOWN only if some combination of the encountered deviation sites reproduces pony exactly.
+    # Sites hidden behind another deviation (rows the base reading never evaluates) surface in later rounds.
+    all_sites, tried = set(rr.sites), set()
+    for _round in range(3):
+        sites = [s for s in dev_rules if s in all_sites]
+        combos = [(s,) for s in sites]
+        if len(sites) > 1:
+            combos.append(tuple(sites))
+            if 2 < len(sites) <= 5: combos.extend(itertools.combinations(sites, 2))
+            if 3 < len(sites) <= 5: combos.extend(itertools.combinations(sites, 3))
+        before = set(all_sites)
+        for combo in combos:
+            if combo in tried: continue
+            tried.add(combo)
+            try:
+                rr2 = reference(program, env.mirror, dev=combo)
+            except (Unsupported, NoReference): continue
+            all_sites |= rr2.sites
+            st2, _ = compare(result, rr2)
+            if st2 in ('agree', 'lenient_agree') or (rr2.unpredictable and 'aggr_optimize' in combo):
+                v = Verdict('known', program, result, rr, detail, findings=[dev_rules[s] for s in combo])
+                v.by_shape = st2 not in ('agree', 'lenient_agree')
+                return v
+        if all_sites == before: break
+    rr.sites |= all_sites
+    for sname, fid in SHAPE_RULES.items():
+        if sname in rr.sites:
+            v = Verdict('known', program, result, rr, detail, findings=[fid])
+            v.by_shape = True
             return v
     return Verdict('disagree', program, result, rr, detail)
 
@@ -2049,6 +2256,13 @@ def lint_program(src):
         if recv is not None and varfree(recv) and not isinstance(recv, (ast.Name, ast.Constant, ast.Attribute)):
             return 'compound constant receiver'
         if isinstance(n, ast.IfExp) and varfree(n): return 'constant conditional expression'
+        conds = []
+        if isinstance(n, ast.BoolOp): conds = n.values
+        elif isinstance(n, ast.UnaryOp) and isinstance(n.op, ast.Not): conds = [n.operand]
+        elif isinstance(n, ast.IfExp): conds = [n.test]
+        elif isinstance(n, ast.comprehension): conds = n.ifs
+        for c in conds:
+            if not any(isinstance(x, ast.Name) for x in ast.walk(c)): return 'constant-only condition operand'
     return None
 
 
@@ -2092,12 +2306,12 @@ TEMPLATES = [
     T('float.coalesce', 'float', ('float', 'float'), 'coalesce({0}, {1})', 'float'),
     T('str.cat', 'str', ('str', 'str'), '{0} + {1}'),
     T('str.upper', 'str', ('str',), '{0}.upper()'), T('str.lower', 'str', ('str',), '{0}.lower()'),
-    T('str.strip', 'str', ('str',), '{0}.strip()'), T('str.lstrip', 'str', ('str',), '{0}.lstrip()'),
-    T('str.rstrip', 'str', ('str',), '{0}.rstrip()'),
+    T('str.strip', 'str', ('str',), '{0}.strip()', 'strip0'), T('str.lstrip', 'str', ('str',), '{0}.lstrip()', 'strip0'),
+    T('str.rstrip', 'str', ('str',), '{0}.rstrip()', 'strip0'),
     T('str.stripc', 'str', ('str', 'strconst'), '{0}.strip({1})'), T('str.lstripc', 'str', ('str', 'strconst'), '{0}.lstrip({1})'),
     T('str.rstripc', 'str', ('str', 'strconst'), '{0}.rstrip({1})'),
     T('str.index', 'str', ('str', 'idx'), '{0}[{1}]'),
-    T('str.slice', 'str', ('str', 'idx?', 'idx?'), '{0}[{1}:{2}]'),
+    T('str.slice', 'str', ('str', 'idx?', 'idx?'), '{0}[{1}:{2}]', 'slice'),
     T('str.concat2', 'str', ('str', 'int'), 'concat({0}, {1})'), T('str.concat3', 'str', ('str', 'str', 'str'), 'concat({0}, {1}, {2})'),
     T('str.coalesce', 'str', ('str', 'str'), 'coalesce({0}, {1})'),
     T('str.fromint', 'str', ('int',), 'str({0})'),
@@ -2202,9 +2416,10 @@ class ProgramGen(object):
         if paths and r < 0.25:
             self.use('truth.boolattr'); return X(self.rng.choice(paths)[0], True)
         typ = self.rng.choice(self.types)
-        a = self.attr_leaf(typ) or self.const(typ)
-        if r < 0.35 and typ in ('int', 'str', 'float'):
+        a = self.attr_leaf(typ)
+        if a is not None and r < 0.35 and typ in ('int', 'str', 'float'):
             self.use('truth.' + typ); return a
+        a = a or self.const(typ)
         n, op = self.rng.choice(CMP_OPS)
         self.use('cmp.%s.%s' % (typ, n))
         return X('%s %s %s' % (a.t, op, self.const(typ).t))
@@ -2712,7 +2927,7 @@ class ProgramGen(object):
             attrs = [a for a in e.attrs.values() if a.is_scalar and a.typ == typ and a.kind != 'pk']
             attrs.sort(key=lambda a: (not a.nullable, a.name))
             L[typ] = ['%s.%s' % (var, a.name) for a in attrs[:per_type]]
-            L[typ] += [lit(v) for v in self.dom[typ][1:per_type]]
+            L[typ] += [lit(v) for v in self.dom[typ][1:max(per_type, 2)]]
         L['num'] = L['int'][:1] + L['float'][:1]
         L['strconst'] = ["'a'"]; L['idx'] = ['0', '(-1)', '1']; L['idx?'] = ['', '1', '(-1)']
         L['tdconst'] = ['timedelta(days=1)']; L['smallexp'] = ['2']
@@ -2725,11 +2940,16 @@ class ProgramGen(object):
         L['bool'] = L['cond']
         return L
 
-    def enumerate_small(self, ename='Person', var='p', per_type=2, max_ops=2, exclude_ops=()):
+    REDUCED_OPS = frozenset("""int.add int.sub int.mul int.floordiv int.mod int.neg int.abs int.len int.coalesce int.year
+        float.div float.mul float.pow str.cat str.upper str.strip str.index str.slice str.concat2 str.coalesce date.addc
+        dec.addi cmp.int.lt cmp.int.eq cmp.str.le cmp.str.ne cmp.date.gt cmp.dec.ge cmp.num.lt isnone notnone in.intlist
+        notin.intlist str.in startswith endswith between.int and or not cmp.chain.int cmp.bool.eq""".split())
+
+    def enumerate_small(self, ename='Person', var='p', per_type=2, max_ops=2, exclude_ops=(), ops=None):
         """All expressions with <= max_ops template operators over the reduced leaf set, wrapped into programs:
         bool-typed ones as filters (all three forms possible), value-typed ones as (pk, expr) projections."""
         L = self.small_leaves(ename, var, per_type)
-        tpls = [t for t in TEMPLATES if self.ok(t) and t['name'] not in exclude_ops]
+        tpls = [t for t in TEMPLATES if self.ok(t) and t['name'] not in exclude_ops and (ops is None or t['name'] in ops)]
         memo = {}
         def exprs(tok, ops):
             """list of (text, atomic, prods) with exactly `ops` operators"""
@@ -2762,3 +2982,132 @@ class ProgramGen(object):
                 for text, atomic, prods in exprs(typ, ops):
                     src = '(%s.id, %s) for %s in %s' % (var, text, var, ename)
                     yield Program(src, {}, 'gen', [], None, list(prods) + ['shape.proj'], self.schema.name)
+
+
+# ----------------------------------------------------------------------------------------------------------------
+# 10. greedy shrinking of a disagreeing case
+# ----------------------------------------------------------------------------------------------------------------
+def derive_lam(src, schema):
+    """lam description if `src` is `v for v in Entity [if cond]`, else None."""
+    try: tree = parse_src(src)
+    except (SyntaxError, Unsupported): return None
+    if len(tree.generators) != 1: return None
+    g = tree.generators[0]
+    if not (isinstance(tree.elt, ast.Name) and isinstance(g.target, ast.Name) and tree.elt.id == g.target.id
+            and isinstance(g.iter, ast.Name) and g.iter.id in schema.ents): return None
+    cond = ' and '.join('(%s)' % ast.unparse(c) if len(g.ifs) > 1 else ast.unparse(c) for c in g.ifs) or None
+    return {'ent': g.iter.id, 'var': g.target.id, 'cond': cond}
+
+
+def _src_candidates(src):
+    """Smaller variants of a generator-expression text: each replaces one node by one of its children or drops a part."""
+    try: tree = parse_src(src)
+    except SyntaxError: return
+    nodes = [n for n in ast.walk(tree)]
+    seen = set()
+    def emit(new_tree):
+        try: text = ast.unparse(new_tree)
+        except Exception: return None
+        if text.startswith('(') and text.endswith(')'): text = text[1:-1]
+        if text != src and text not in seen:
+            seen.add(text); return text
+        return None
+    def replace(target, repl):
+        class R(ast.NodeTransformer):
+            def visit(self, n):
+                if n is target: return repl
+                return self.generic_visit(n)
+        t2 = copy.deepcopy(tree)
+        # map target in the copy by position in walk order
+        idx = nodes.index(target)
+        tnodes = list(ast.walk(t2))
+        tgt2 = tnodes[idx]
+        repl2 = copy.deepcopy(repl) if isinstance(repl, ast.AST) else repl
+        class R2(ast.NodeTransformer):
+            def visit(self, n):
+                if n is tgt2: return repl2
+                return self.generic_visit(n)
+        return ast.fix_missing_locations(R2().visit(t2))
+    for n in nodes:
+        kids = []
+        if isinstance(n, ast.BoolOp): kids = n.values
+        elif isinstance(n, ast.BinOp): kids = [n.left, n.right]
+        elif isinstance(n, ast.IfExp): kids = [n.body, n.orelse]
+        elif isinstance(n, ast.UnaryOp): kids = [n.operand]
+        elif isinstance(n, ast.Call) and isinstance(n.func, ast.Name) and n.func.id in ('abs', 'coalesce', 'min', 'max', 'concat', 'float', 'int', 'str') \
+                and n.args and not isinstance(n.args[0], ast.GeneratorExp): kids = list(n.args)
+        elif isinstance(n, ast.Call) and isinstance(n.func, ast.Attribute) and n.func.attr in ('upper', 'lower', 'strip', 'lstrip', 'rstrip'):
+            kids = [n.func.value]
+        elif isinstance(n, ast.Subscript): kids = [n.value]
+        elif isinstance(n, ast.Compare) and len(n.ops) > 1:
+            kids = [ast.Compare(n.left, n.ops[:1], n.comparators[:1]), ast.Compare(n.comparators[0], n.ops[1:], n.comparators[1:])]
+        for k in kids:
+            if n is tree: continue
+            t = emit(replace(n, k))
+            if t: yield t
+        if isinstance(n, ast.Tuple) and n is tree.elt and len(n.elts) > 1:
+            for i in range(len(n.elts)):
+                rest = n.elts[:i] + n.elts[i + 1:]
+                t = emit(replace(n, rest[0] if len(rest) == 1 else ast.Tuple(rest, ast.Load())))
+                if t: yield t
+        if isinstance(n, ast.GeneratorExp):
+            for gi, g in enumerate(n.generators):
+                for ci in range(len(g.ifs)):
+                    t2 = copy.deepcopy(tree)
+                    tn = list(ast.walk(t2))[nodes.index(n)]
+                    del tn.generators[gi].ifs[ci]
+                    t = emit(t2)
+                    if t: yield t
+
+
+def _data_candidates(schema, data):
+    """Data sets with one row removed (references to it cleared; rows that REQUIRE it removed as well is not attempted)."""
+    for root in [r.name for r in schema.roots()][::-1]:
+        rows = data.get(root, [])
+        for i in range(len(rows) - 1, -1, -1):
+            pk = rows[i]['id']
+            d2 = copy.deepcopy(data)
+            del d2[root][i]
+            ok = True
+            for r2 in schema.roots():
+                for row in d2.get(r2.name, []):
+                    e = schema.ents[row['_cls']]
+                    for a in e.attrs.values():
+                        if a.is_scalar or a.name not in row or schema.ents[a.typ].root != root: continue
+                        if a.is_ref and row[a.name] == pk:
+                            if a.kind == 'req': ok = False
+                            else: row[a.name] = None
+                        elif a.is_set and isinstance(row[a.name], list) and pk in row[a.name]:
+                            row[a.name] = [x for x in row[a.name] if x != pk]
+            if ok: yield d2
+
+
+def shrink(env, program, data, still_bad, budget=60):
+    """Greedy reduction: still_bad(program, data) -> bool re-runs the monitor (it may reload env).  Returns the
+    smallest (program, data) found within `budget` monitor runs."""
+    schema = env.schema
+    steps = [0]
+    def test(p, d):
+        if steps[0] >= budget: return False
+        steps[0] += 1
+        try: return bool(still_bad(p, d))
+        except Exception: return False
+    progress = True
+    while progress and steps[0] < budget:
+        progress = False
+        if program.chain:
+            for i in range(len(program.chain)):
+                p2 = program.clone(chain=program.chain[:i] + program.chain[i + 1:])
+                if test(p2, data): program, progress = p2, True; break
+            if progress: continue
+        for text in _src_candidates(program.src):
+            lam = derive_lam(text, schema)
+            if program.form == 'lam' and lam is None: continue
+            p2 = program.clone(src=text, lam=lam)
+            if test(p2, data): program, progress = p2, True; break
+            if steps[0] >= budget: break
+        if progress: continue
+        for d2 in _data_candidates(schema, data):
+            if test(program, d2): data, progress = d2, True; break
+            if steps[0] >= budget: break
+    return program, data
